@@ -446,6 +446,9 @@ def make_native(yp, unify, rows, arity, style, yield_value, ctl, name=None):
 
 def gen_compile_program(rng, big=False):
     preds = [(rng.choice(['p', 'q', 'r', 'foo', 'bar_baz', 'x1']), rng.randrange(0, 4)) for _ in range(rng.randrange(2, 6))]
+    if rng.random() < 0.15:
+        # a predicate with 9-12 arguments
+        preds[rng.randrange(len(preds))] = (rng.choice(['wide', 'p', 'foo']), rng.randrange(9, 13))
     if big:
         # many predicates (size-dependent paths of the code generator: buffers, pools, tables)
         preds = [('%s%d' % (rng.choice(['p', 'q', 'foo', 'bar_baz']), i), rng.randrange(0, 4)) for i in range(rng.choice((26, 33, 34, 41, 48)))]
